@@ -29,13 +29,13 @@ def options():
 
 def ob(sec, opt, mode, L, timeout, fixb=None, extra=()):
     fixb = fixb or {}
-    n = {"bool": 3, "str": 3 * L, "strseq": 6 * L, "excl": 6 * L, "outdir": 3, "wrongtype": 1}[mode]
+    n = {"bool": 3, "str": 3 * L, "strseq": 6 * L, "excl": 6 * L, "exclseed": 6 * L, "outdir": 3, "wrongtype": 1}[mode]
     return vf.CH(f"C16 {mode} {sec}.{opt}" + (f" {sorted(fixb.items())}" if fixb else "") + (f" with {' '.join(extra)} also on the command line" if extra else ""), "c16_layer.py",
                  dict(MODE=mode, SECTION=sec, OPTION=opt, CLI=CLI.get((sec, opt)), L=L, NCP=n, FIXB=fixb, EXTRA=tuple(extra)),
                  timeout=timeout, encodes=ENC, unblock=["os.mkdir"],
                  symbolic="whether a -s file is given at all; for each of the three writable sources (per-user file, -s file, command line where a flag exists): whether it sets the option, and the value it gives"
                           + ("; relative_to_config switched on in the -s file and/or the per-user file" if mode == "outdir" else ""),
-                 bound=f"strings of exactly {L} chars, lists of 2 strings, output directories from a 4-entry menu")
+                 bound=f"strings of exactly {L} chars, lists of 2 strings (exclude filters: 2 strings or, in a file, the empty list), output directories from a 4-entry menu")
 
 
 def build(tier):
